@@ -11,6 +11,7 @@ import (
 	"time"
 
 	"github.com/named-data/ndnd/fw/core"
+	"github.com/named-data/ndnd/fw/face"
 	fwmgmt "github.com/named-data/ndnd/fw/mgmt"
 	"github.com/named-data/ndnd/fw/table"
 	enc "github.com/named-data/ndnd/std/encoding"
@@ -23,9 +24,9 @@ import (
 type route struct{ face, origin, cost, flags uint64 }
 
 type inst struct {
-	routes map[string][]*route // reference: prefix -> routes (insertion order irrelevant)
-	cmdErr string              // a management command of this step was not answered with 200
-	scratch []byte             // reuse universes: the caller's decode buffer, shared by all calls
+	routes  map[string][]*route // reference: prefix -> routes (insertion order irrelevant)
+	cmdErr  string              // a management command of this step was not answered with 200
+	scratch []byte              // reuse universes: the caller's decode buffer, shared by all calls
 }
 
 type universe struct {
@@ -41,6 +42,33 @@ type universe struct {
 	// re-uses for its next call and scribbles over as soon as the call has returned - the way a
 	// caller decoding commands from a receive buffer behaves. The RIB must own its keys.
 	reuse bool
+	// faceforms (with mgmt): every command names its face in each of the three ways the protocol
+	// offers - FaceId absent (the requesting face), FaceId=0 explicitly (the requesting face),
+	// FaceId=<id> explicitly in a command that arrives on ANOTHER face
+	faceforms bool
+}
+
+// faceForm is one way of naming face f in a command: the ControlParameters FaceId (nil = absent)
+// and the face the command arrives on.
+type faceForm struct {
+	tag    string
+	faceID *uint64
+	from   uint64
+}
+
+func (u universe) faceFormsOf(f uint64) []faceForm {
+	forms := []faceForm{{"", nil, f}}
+	if !u.faceforms {
+		return forms
+	}
+	forms = append(forms, faceForm{",FaceId=0", utils.IdPtr(uint64(0)), f})
+	for _, g := range u.faces {
+		if g != f {
+			forms = append(forms, faceForm{fmt.Sprintf(",FaceId=%d-from-f%d", f, g), utils.IdPtr(f), g})
+			break
+		}
+	}
+	return forms
 }
 
 type sys struct {
@@ -137,27 +165,29 @@ func newSys(u universe, fib string) *sys {
 								if !explicit && !(o == 0 || c == 0 || fl == ci) {
 									continue
 								}
-								explicit := explicit
-								tag := ""
-								if !explicit {
-									tag = ",defaults-absent"
+								for _, ff := range u.faceFormsOf(f) {
+									explicit, ff := explicit, ff
+									tag := ff.tag
+									if !explicit {
+										tag += ",defaults-absent"
+									}
+									add(fmt.Sprintf("Reg(%s,f%d,o%d,c%d,%s%s)", p, f, o, c, flagStr(fl), tag), func(in *inst) {
+										a := &mgmtdef.ControlArgs{Name: nm(p), FaceId: ff.faceID}
+										if explicit || o != 0 {
+											a.Origin = utils.IdPtr(o)
+										}
+										if explicit || c != 0 {
+											a.Cost = utils.IdPtr(c)
+										}
+										if explicit || fl != ci {
+											a.Flags = utils.IdPtr(fl)
+										}
+										if st, _ := fwmgmt.VerifCommand("rib", "register", a, ff.from); st != 200 {
+											in.cmdErr = fmt.Sprintf("rib/register answered %d", st)
+										}
+										ref(in)
+									})
 								}
-								add(fmt.Sprintf("Reg(%s,f%d,o%d,c%d,%s%s)", p, f, o, c, flagStr(fl), tag), func(in *inst) {
-									a := &mgmtdef.ControlArgs{Name: nm(p)}
-									if explicit || o != 0 {
-										a.Origin = utils.IdPtr(o)
-									}
-									if explicit || c != 0 {
-										a.Cost = utils.IdPtr(c)
-									}
-									if explicit || fl != ci {
-										a.Flags = utils.IdPtr(fl)
-									}
-									if st, _ := fwmgmt.VerifCommand("rib", "register", a, f); st != 200 {
-										in.cmdErr = fmt.Sprintf("rib/register answered %d", st)
-									}
-									ref(in)
-								})
 							}
 							continue
 						}
@@ -181,32 +211,34 @@ func newSys(u universe, fib string) *sys {
 	for _, p := range u.prefixes {
 		for _, f := range u.faces {
 			for _, o := range u.origins {
-				p, f, o := p, f, o
-				add(fmt.Sprintf("Unreg(%s,f%d,o%d)", p, f, o), func(in *inst) {
-					if u.mgmt {
-						a := &mgmtdef.ControlArgs{Name: nm(p)}
-						if o != 0 {
-							a.Origin = utils.IdPtr(o)
+				for _, ff := range u.faceFormsOf(f) {
+					p, f, o, ff := p, f, o, ff
+					add(fmt.Sprintf("Unreg(%s,f%d,o%d%s)", p, f, o, ff.tag), func(in *inst) {
+						if u.mgmt {
+							a := &mgmtdef.ControlArgs{Name: nm(p), FaceId: ff.faceID}
+							if o != 0 {
+								a.Origin = utils.IdPtr(o)
+							}
+							if st, _ := fwmgmt.VerifCommand("rib", "unregister", a, ff.from); st != 200 {
+								in.cmdErr = fmt.Sprintf("rib/unregister answered %d", st)
+							}
+						} else {
+							name, done := u.arg(in, p)
+							table.Rib.RemoveRouteEnc(name, f, o)
+							done()
 						}
-						if st, _ := fwmgmt.VerifCommand("rib", "unregister", a, f); st != 200 {
-							in.cmdErr = fmt.Sprintf("rib/unregister answered %d", st)
+						rs := in.routes[p]
+						for i, r := range rs {
+							if r.face == f && r.origin == o {
+								in.routes[p] = append(append([]*route{}, rs[:i]...), rs[i+1:]...)
+								break
+							}
 						}
-					} else {
-						name, done := u.arg(in, p)
-						table.Rib.RemoveRouteEnc(name, f, o)
-						done()
-					}
-					rs := in.routes[p]
-					for i, r := range rs {
-						if r.face == f && r.origin == o {
-							in.routes[p] = append(append([]*route{}, rs[:i]...), rs[i+1:]...)
-							break
+						if len(in.routes[p]) == 0 {
+							delete(in.routes, p)
 						}
-					}
-					if len(in.routes[p]) == 0 {
-						delete(in.routes, p)
-					}
-				})
+					})
+				}
 			}
 		}
 	}
@@ -250,6 +282,9 @@ func (s *sys) New() any {
 		table.VerifNewFibHT(uint16(m))
 	}
 	table.VerifResetRib()
+	if s.u.faceforms {
+		face.VerifC06SetFaces(s.u.faces)
+	}
 	return &inst{routes: map[string][]*route{}}
 }
 
@@ -469,7 +504,9 @@ var universes = map[string]universe{
 	"reuse": {prefixes: []string{"/a", "/a/b", "/x/y"}, faces: []uint64{1, 2}, origins: []uint64{0}, costs: []uint64{1}, flags: []uint64{ci, cap_}, reuse: true},
 	// sibling prefixes whose components differ in type only (generic x vs keyword 32=x) under a routed parent
 	"typed": {prefixes: []string{"/a", "/a/x", "/a/32=x"}, faces: []uint64{1, 2}, origins: []uint64{0}, costs: []uint64{1}, flags: []uint64{ci, 0}},
-	"mgmt": {prefixes: []string{"/a", "/a/b"}, faces: []uint64{1, 2}, origins: []uint64{0, 128}, costs: []uint64{0, 5}, flags: []uint64{0, ci, cap_, ci | cap_}, mgmt: true},
+	"mgmt":  {prefixes: []string{"/a", "/a/b"}, faces: []uint64{1, 2}, origins: []uint64{0, 128}, costs: []uint64{0, 5}, flags: []uint64{0, ci, cap_, ci | cap_}, mgmt: true},
+	// every way of naming the face in a command (absent / explicit 0 / explicit id from another face)
+	"mgmtface": {prefixes: []string{"/a", "/a/b"}, faces: []uint64{1, 2}, origins: []uint64{0, 128}, costs: []uint64{1}, flags: []uint64{ci, cap_}, mgmt: true, faceforms: true},
 	// the full alphabet of the design
 	"full": {prefixes: []string{"/", "/a", "/a/b", "/a/b/c", "/a/x"}, faces: []uint64{1, 2}, origins: []uint64{0, 128}, costs: []uint64{1, 5}, flags: []uint64{0, ci, cap_, ci | cap_}},
 }
@@ -504,6 +541,7 @@ func main() {
 				c = append(c, explore.Config{Name: "mid " + f, MaxDepth: d2, MaxDev: -1})
 				c = append(c, explore.Config{Name: "full " + f, MaxDepth: d3, MaxDev: -1})
 				c = append(c, explore.Config{Name: "mgmt " + f, MaxDepth: d3, MaxDev: -1})
+				c = append(c, explore.Config{Name: "mgmtface " + f, MaxDepth: d2, MaxDev: -1})
 				c = append(c, explore.Config{Name: "reuse " + f, MaxDepth: d2, MaxDev: -1})
 				c = append(c, explore.Config{Name: "typed " + f, MaxDepth: d2, MaxDev: -1})
 			}
